@@ -696,3 +696,68 @@ def connect_map_keys(ctx: Context, rule: str) -> None:
                                f"{c.name}.{f.name} reports only network failures {[k for k, _ in pairs]} as connect failures" if not bad else
                                f"{c.name}.{f.name} reports {bad} as ConnectError/ConnectTimeout: that is not a failure of the network, yet it is now retried `retries` times with back-off")
     rep.floor(rule, "connect-family exception maps", n, 8)
+
+
+# ---------------------------------------------------------------------------------------------------------------------
+# AutoBackend: pure delegation to the backend of the running async library
+
+def auto_delegation(ctx: Context, rule: str) -> None:
+    rep = ctx.rep
+    m = ctx.prog.module("httpcore._backends.auto")
+    c = m.classes.get("AutoBackend")
+    if c is None:
+        raise AnalysisError("anchor vanished: AutoBackend")
+    n = 0
+    for name in ("connect_tcp", "connect_unix_socket", "sleep"):
+        f = c.methods.get(name)
+        if f is None:
+            rep.ob(rule, f"backend|AutoBackend.{name}|delegates", False, m.relpath, f"AutoBackend.{name} missing")
+            continue
+        n += 1
+        params = [a for a in f.param_names() if a != "self"]
+        calls = [x for x in own_nodes(f.node) if isinstance(x, ast.Call) and chain(x.func) == ["self", "_backend", name]]
+        problems = []
+        if len(calls) != 1:
+            problems.append(f"{len(calls)} delegation calls")
+        else:
+            call = calls[0]
+            seen: dict[str, int] = {}
+            for i, a in enumerate(call.args):
+                if not (isinstance(a, ast.Name) and i < len(params) and a.id == params[i]):
+                    problems.append(f"positional argument {i} is `{ast.unparse(a)}`, parameter `{params[i] if i < len(params) else '?'}` expected")
+                else:
+                    seen[a.id] = seen.get(a.id, 0) + 1
+            for k in call.keywords:
+                if k.arg is None or not (isinstance(k.value, ast.Name) and k.value.id == k.arg):
+                    problems.append(f"keyword `{k.arg}={ast.unparse(k.value)}` is not the same-named parameter")
+                else:
+                    seen[k.arg] = seen.get(k.arg, 0) + 1
+            for p_ in params:
+                if seen.get(p_, 0) != 1:
+                    problems.append(f"parameter `{p_}` is passed {seen.get(p_, 0)} times")
+            if guard_atoms(guards_of(call)):
+                problems.append(f"delegation is conditional on {sorted(guard_atoms(guards_of(call)))}")
+            rets = [r for r in own_nodes(f.node) if isinstance(r, ast.Return)]
+            if not (len(rets) == 1 and rets[0].value is not None and any(call is x for x in ast.walk(rets[0].value))):
+                problems.append("the result of the delegation is not what is returned")
+            inits = [x for x in own_nodes(f.node) if isinstance(x, ast.Call) and chain(x.func) == ["self", "_init_backend"]]
+            if not inits or inits[0].lineno > call.lineno:
+                problems.append("`self._init_backend()` does not precede the delegation")
+        rep.ob(rule, fkey("backend", f, "delegates"), not problems, where(f, calls[0] if calls else None),
+               f"AutoBackend.{name} passes every parameter through unchanged and returns the backend's result" if not problems else f"AutoBackend.{name}: " + "; ".join(problems))
+    ib = c.methods.get("_init_backend")
+    ok = False
+    detail = "AutoBackend._init_backend missing"
+    if ib is not None:
+        stores = [s_ for s_ in own_nodes(ib.node) if isinstance(s_, (ast.Assign, ast.AnnAssign)) and norm(s_.targets[0] if isinstance(s_, ast.Assign) else s_.target) == "self._backend"]
+        table = {}
+        for s_ in stores:
+            g = guard_atoms(guards_of(s_))
+            cls = norm(s_.value.func) if isinstance(s_.value, ast.Call) else norm(s_.value)
+            table[cls] = g
+        want_trio = {a for a in table.get("TrioBackend", set()) if "trio" in a}
+        ok = set(table) == {"TrioBackend", "AnyIOBackend"} and bool(want_trio) and all(any("hasattr(self,'_backend')" in a for a in g) for g in table.values()) \
+            and any(a.startswith("'trio'!=") or a.startswith("not:") and "trio" in a for a in table.get("AnyIOBackend", set()))
+        detail = f"backend selection: { {k: sorted(v) for k, v in table.items()} }"
+    rep.ob(rule, fkey("backend", ib or next(iter(c.methods.values())), "selection"), ok, where(ib) if ib else m.relpath, detail)
+    rep.floor(rule, "AutoBackend operations", n, 2)
